@@ -186,3 +186,138 @@ def fn_update1(fn):
     return ("def update1 (p : PBar) (score_new : F) (pos_new : Pos) (nth_iter : Nat) : PBar :=\n"
             f"  let p := if {truth(env, st[1].test)} then {{ p with bestSince := p.bestSince ++ [nth_iter] }} else p\n"
             "  _new2best p score_new pos_new")
+
+
+# ----------------------------------------------------------------------------- no_change (early stopping)
+
+class _NC:
+    """statement-level translation of `no_change`: straight-line code with early returns in the `Except Err` monad.
+    Types: `score_new_list` / slices of it: List F; `len`, `np.argmax`, their differences: Nat; `max`, `abs`, `-`, `*`: F;
+    `/`: the partial `F.div flv` (ZeroDivisionError for python floats)."""
+
+    NAT = {"n_iter_no_change", "max_index", "length_pos", "diff", "first_n"}
+    LISTF = {"score_new_list": "score_new_list", "scores_np": "score_new_list"}     # `scores_np = np.array(score_new_list)` is an alias
+    FL = {"max_score", "max_first_n", "tol_abs", "tol_rel", "baseline", "percent_imp"}
+
+    def __init__(self):
+        self.lists = dict(self.LISTF)
+
+    def nat(self, e):
+        if isinstance(e, ast.Name) and e.id in self.NAT:
+            return e.id
+        if isinstance(e, ast.Call) and _u(e.func) == "len" and len(e.args) == 1:
+            return f"({self.lst(e.args[0])}).length"
+        if isinstance(e, ast.Call) and _u(e.func) == "np.argmax" and len(e.args) == 1:
+            return f"npArgmax ({self.lst(e.args[0])})"
+        if isinstance(e, ast.BinOp) and isinstance(e.op, ast.Sub):
+            return f"({self.nat(e.left)} - {self.nat(e.right)})"
+        raise Untranslatable(f"no_change: integer expression `{_u(e)}`")
+
+    def lst(self, e):
+        if isinstance(e, ast.Name) and e.id in self.lists:
+            return self.lists[e.id]
+        if isinstance(e, ast.Subscript) and isinstance(e.slice, ast.Slice) and e.slice.lower is None and e.slice.step is None \
+                and e.slice.upper is not None:
+            return f"({self.lst(e.value)}).take {self.nat(e.slice.upper)}"
+        raise Untranslatable(f"no_change: list expression `{_u(e)}`")
+
+    def fl(self, e):
+        """-> (monadic binds, term)"""
+        if isinstance(e, ast.Name) and e.id in self.FL:
+            return [], e.id
+        if isinstance(e, ast.Constant) and isinstance(e.value, int) and not isinstance(e.value, bool):
+            return [], f"(F.ofInt {e.value})"
+        if isinstance(e, ast.Call) and _u(e.func) == "abs" and len(e.args) == 1:
+            b, t = self.fl(e.args[0])
+            return b, f"(F.abs {t})"
+        if isinstance(e, ast.Call) and _u(e.func) == "max" and len(e.args) == 1:
+            v = f"m{len(_u(e))}"
+            return [f"let {v} ← pyMax ({self.lst(e.args[0])})"], v
+        if isinstance(e, ast.BinOp) and isinstance(e.op, (ast.Sub, ast.Mult)):
+            bl, tl = self.fl(e.left)
+            br, tr_ = self.fl(e.right)
+            return bl + br, f"(F.{'sub' if isinstance(e.op, ast.Sub) else 'mul'} {tl} {tr_})"
+        if isinstance(e, ast.BinOp) and isinstance(e.op, ast.Div):
+            bl, tl = self.fl(e.left)
+            br, tr_ = self.fl(e.right)
+            return bl + br + [f"let q ← F.div flv {tl} {tr_}"], "q"
+        raise Untranslatable(f"no_change: float expression `{_u(e)}`")
+
+    def cond(self, e):
+        """-> (binds, Bool term)"""
+        if isinstance(e, ast.Compare) and len(e.ops) == 1:
+            l, r, op = e.left, e.comparators[0], e.ops[0]
+            try:
+                ln, rn = self.nat(l), self.nat(r)
+                sym = {ast.LtE: "≤", ast.Gt: ">", ast.Lt: "<", ast.GtE: "≥"}.get(type(op))
+                if sym is None:
+                    raise Untranslatable("op")
+                return [], f"decide ({ln} {sym} {rn})"
+            except Untranslatable:
+                pass
+            if isinstance(op, ast.NotEq) and isinstance(r, ast.Constant) and r.value == 0:
+                b, t = self.fl(l)
+                return b, f"(!(F.beq {t} F.zero))"
+            f = {ast.Lt: "F.lt", ast.Gt: "F.gt", ast.LtE: "F.le", ast.GtE: "F.ge"}.get(type(op))
+            if f is None:
+                raise Untranslatable(f"no_change: comparison `{_u(e)}`")
+            bl, tl = self.fl(l)
+            br, tr_ = self.fl(r)
+            return bl + br, f"({f} {tl} {tr_})"
+        raise Untranslatable(f"no_change: condition `{_u(e)}`")
+
+    def block(self, stmts, ind):
+        """statements -> lines of a `do` block that ends with the value of the block (falling off the end = `pure false`)"""
+        if not stmts:
+            return [f"{ind}pure false"]
+        st, rest = stmts[0], stmts[1:]
+        s = _u(st)
+        if isinstance(st, ast.Assign) and len(st.targets) == 1 and isinstance(st.targets[0], ast.Name):
+            name = st.targets[0].id
+            if s == "scores_np = np.array(score_new_list)":
+                return self.block(rest, ind)
+            if name in self.NAT:
+                return [f"{ind}let {name} := {self.nat(st.value)}"] + self.block(rest, ind)
+            if name == "scores_first_n":
+                self.lists[name] = self.lst(st.value)
+                return self.block(rest, ind)
+            if name in self.FL:
+                if isinstance(st.value, ast.Subscript) and _u(st.value.value) == "early_stopping":
+                    return self.block(rest, ind)            # bound by the enclosing `match` on the dictionary entry
+                b, t = self.fl(st.value)
+                return [f"{ind}{x}" for x in b] + [f"{ind}let {name} := {t}"] + self.block(rest, ind)
+            raise Untranslatable(f"no_change: assignment `{s}`")
+        if isinstance(st, ast.If) and not st.orelse:
+            t = _u(st.test)
+            for key, fld, var in (("tol_abs", "tolAbs", "tol_abs"), ("tol_rel", "tolRel", "tol_rel")):
+                if t == f"'{key}' in early_stopping and early_stopping['{key}'] is not None":
+                    if _u(st.body[0]) != f"{var} = early_stopping['{key}']":
+                        raise Untranslatable(f"no_change: `{_u(st.body[0])}`")
+                    inner = self.block(st.body, ind + "    ")
+                    return ([f"{ind}let hit_{key} ← (match early_stopping.{fld} with", f"{ind}  | none => pure false", f"{ind}  | some {var} => do"]
+                            + inner + [f"{ind}  )", f"{ind}if hit_{key} then pure true else"] + self.block(rest, ind))
+            b, c = self.cond(st.test)
+            body = [_u(x) for x in st.body]
+            if body == ["return True"] or body == ["return False"]:
+                val = "true" if body == ["return True"] else "false"
+                return [f"{ind}{x}" for x in b] + [f"{ind}if {c} then pure {val} else"] + self.block(rest, ind)
+            # a plain guarded block (`if baseline != 0:`) that may return: its value, or fall through to the rest
+            if rest:
+                raise Untranslatable(f"no_change: guarded block followed by statements `{s}`")
+            return [f"{ind}{x}" for x in b] + [f"{ind}if {c} then do"] + self.block(st.body, ind + "  ") + [f"{ind}else pure false"]
+        raise Untranslatable(f"no_change: statement `{s}`")
+
+
+def fn_no_change(fn):
+    if [a.arg for a in fn.args.args] != ["score_new_list", "early_stopping"]:
+        raise Untranslatable("no_change: parameters")
+    b = fn.body
+    if not isinstance(b[0], ast.If) or _u(b[0].test) != "'n_iter_no_change' not in early_stopping" or _u(b[0].body[-1]) != "return False" \
+            or _u(b[1]) != "n_iter_no_change = early_stopping['n_iter_no_change']":
+        raise Untranslatable("no_change: the n_iter_no_change guard changed")
+    nc = _NC()
+    lines = nc.block(b[2:], "    ")
+    return ("/-- `no_change(score_new_list, early_stopping)`; `false` also stands for the `None` the function falls off with -/\n"
+            "def no_change (flv : Flavour) (score_new_list : List F) (early_stopping : Early) : Except Err Bool :=\n"
+            "  match early_stopping.n with\n  | none => pure false                                  -- 'n_iter_no_change' not in early_stopping\n"
+            "  | some n_iter_no_change => do\n" + "\n".join(lines))
